@@ -258,12 +258,21 @@ def lean_build_and_audit(prop: str, thorough: bool):
     res["obligations"] = len(names)
     audit_dir = os.path.join(LEAN_DIR, ".lake", "audit")
     os.makedirs(audit_dir, exist_ok=True)
-    audit = os.path.join(audit_dir, f"Audit{prop}.lean")
+    # one audit file per process: concurrent runs of the same check must not overwrite each other's file
+    audit = os.path.join(audit_dir, f"Audit{prop}_{os.getpid()}.lean")
     with open(audit, "w") as f:
         f.write(f"import PercevalModel.Props.{prop}\n")
         for n in names:
             f.write(f"#print axioms {n}\n")
-    rc, out = _run(["lake", "env", "lean", audit])
+    try:
+        rc, out = _run(["lake", "env", "lean", audit])
+        if rc == 0 and "depend" not in out:      # transient (file system / process table under load): ask once more
+            rc, out = _run(["lake", "env", "lean", audit])
+    finally:
+        try:
+            os.remove(audit)
+        except OSError:
+            pass
     if rc != 0:
         res["ok"] = False
         res["log"] = out[-4000:]
@@ -404,7 +413,8 @@ class Check:
         cov = {
             "obligations": lean_res["obligations"] if lean_res else 0,
             "discharged": lean_res["discharged"] if lean_res else 0,
-            "checker_cmd": f"cd lean && lake build PercevalModel.Props.{self.prop} && lake env lean .lake/audit/Audit{self.prop}.lean"
+            "checker_cmd": f"cd lean && lake build PercevalModel.Props.{self.prop} && lake env lean <file with one `#print axioms T` "
+                           f"per theorem T of Props/{self.prop}.lean>"
                            + (f" && lake env leanchecker PercevalModel.Props.{self.prop}" if self.thorough else ""),
             "trusted_base": TRUSTED_BASE,
             "theorems": lean_res["names"] if lean_res else [],
